@@ -18,3 +18,5 @@ mod ident;
 mod params;
 #[cfg(kani)]
 mod keygen;
+#[cfg(kani)]
+mod codec;
